@@ -371,6 +371,25 @@ def m_type(x, *a):
 def m_ord(c):
     if isinstance(c, SBytes):
         n = c._sx_len()
+        ps = normalise(c.pieces)
+        if len(ps) == 1 and isinstance(ps[0], Blob) and z3.is_true(z3.simplify(zint(ps[0].ln) == 1)):
+            # one byte of an opaque source: an arbitrary (but fixed per source position) byte
+            _used("ord(opaque byte): fresh symbolic byte per (source, offset)")
+            ctx = cur()
+            cache = getattr(ctx, "_blobbytes", None)
+            if cache is None or getattr(ctx, "_blobbytes_solver", None) is not ctx.solver:
+                cache = ctx._blobbytes = {}
+                ctx._blobbytes_solver = ctx.solver
+            key = (ps[0].src, str(z3.simplify(zint(ps[0].off))))
+            if key not in cache:
+                if len(cache) >= 12:
+                    raise Unsupported("more than 12 bytes read from an opaque source on one path")
+                e = z3.BitVec(ctx.fresh("blobbyte"), WIDTH)
+                ctx.solver.add(z3.And(e >= 0, e <= 255))
+                ctx.pc.append(z3.And(e >= 0, e <= 255))
+                ctx.inputs[f"{ps[0].src}[{key[1]}]"] = e
+                cache[key] = SInt(e)
+            return cache[key]
         if isinstance(n, SInt) or c.has_blob():
             raise Unsupported("ord of opaque bytes")
         if n != 1:
